@@ -33,12 +33,13 @@ type expander struct {
 	consulted map[string]bool
 	unknown   map[string]bool
 	vars      map[string]string
+	idx       map[string]int // loop index variables
 	depth     int
 }
 
 // ExpandTree expands one parsed tree.
 func ExpandTree(tree *parse.Tree, v Variant) ExpandResult {
-	e := &expander{v: v, consulted: map[string]bool{}, unknown: map[string]bool{}, vars: map[string]string{}}
+	e := &expander{v: v, consulted: map[string]bool{}, unknown: map[string]bool{}, vars: map[string]string{}, idx: map[string]int{}}
 	var b strings.Builder
 	e.list(&b, tree.Root, "")
 	res := ExpandResult{Text: b.String()}
@@ -110,6 +111,7 @@ func (e *expander) node(b *strings.Builder, n parse.Node, dot string) {
 				e.vars[x.Pipe.Decl[0].Ident[0]] = elem
 			case 2:
 				e.vars[x.Pipe.Decl[0].Ident[0]] = fmt.Sprint(i)
+				e.idx[x.Pipe.Decl[0].Ident[0]] = i
 				e.vars[x.Pipe.Decl[1].Ident[0]] = elem
 			}
 			e.list(b, x.List, elem)
@@ -267,6 +269,13 @@ func (e *expander) cmd(c *parse.CommandNode, dot string) bool {
 		return r
 	case "eq", "ne":
 		if len(c.Args) == 3 {
+			if vn, ok := c.Args[1].(*parse.VariableNode); ok && len(vn.Ident) == 1 {
+				if i, isIdx := e.idx[vn.Ident[0]]; isIdx {
+					if num, ok := c.Args[2].(*parse.NumberNode); ok && num.IsInt {
+						return (int64(i) == num.Int64) == (id.Ident == "eq")
+					}
+				}
+			}
 			if s, ok := c.Args[2].(*parse.StringNode); ok {
 				key := c.Args[1].String()
 				e.consulted["string "+key] = true
